@@ -7,6 +7,7 @@ from vfw.core import pool
 from vfw.core.findings import Findings
 prop, sub = sys.argv[1], sys.argv[2]
 mx = int(sys.argv[3]) if len(sys.argv) > 3 else 0
+dump = open(sys.argv[4], "w") if len(sys.argv) > 4 else None
 m = importlib.import_module(f"vfw.props.{prop}")
 cs = [c for c in m.cases("thorough", 0) if sub in c["id"]]
 if mx: cs = cs[:mx]
@@ -16,6 +17,8 @@ for case, r in pool.run_cases(f"vfw.props.{prop}", cs, 1800):
     c[r.get("status")] += 1
     for f in r.get("failures") or []:
         k = kf.match(case, f, r.get("classes") or [])
+        if dump:
+            dump.write(json.dumps({"id": case["id"], "sig": f["sig"], "classes": r.get("classes") or [], "known": k, "detail": f.get("detail")}, default=repr) + "\n")
         if not k:
             n += 1
             if n <= 12: print(case["id"], f["sig"], json.dumps(f["detail"])[:300])
